@@ -7,13 +7,15 @@ from .common import setup_import_path
 setup_import_path()
 
 KEY_ALPHABET = list("abcxyzABCXYZ0189_- .'\"\\$/") + ["é", "ß", "İ", "ǅ", "ﬁ", "ж", "Ж", "中", "٣", "３", "²", "ñ", "Å", "\n", "ı",
-                                                      "\u2028", "\x85", "\u2029", "\x0c", "\x1c", "\r", "\t"]
+                                                      "\u2028", "\x85", "\u2029", "\x0c", "\x1c", "\r", "\t",
+                                                      "\u0301", "\u0308", "\u212b", "\u2126"]       # combining marks, NFC singletons
 KEYWORD_KEYS = ["class", "def", "import", "list", "dict", "type", "id", "str", "None", "True", "async", "print", "object",
                 "datetime", "date", "time", "schema", "field", "Field", "self", "json", "copy", "Optional", "List", "Any",
                 "BaseModel", "attr", "dataclass", "Literal", "Union"]
 STYLE_KEYS = ["snake_case_key", "camelCaseKey", "PascalCaseKey", "kebab-case-key", "with1digit2", "HTTPResponse", "userID",
               "XMLHttpRequest", "a", "A", "aB", "Ab", "x_1", "key with space", "dotted.key", "$ref", "@type", "a__b", "__a",
-              "_a", "1x", "one_x", "9", "0abc", "été", "naïve", "Straße", "ключ", "名前", "ﬁle", "İstanbul"]
+              "_a", "1x", "one_x", "9", "0abc", "été", "naïve", "Straße", "ключ", "名前", "ﬁle", "İstanbul",
+              "cafe\u0301", "nai\u0308ve", "A\u030angstrom", "o\u0302m"]           # decomposed (NFD) spellings
 
 
 def tables(strings, cu):
